@@ -54,7 +54,7 @@ Proof.
     + rewrite map_map. cbn [fst]. apply nodup_by_str. exact Hnd.
     + apply map_length.
     + intros ea Hea. exists (atoms_str (snd ea)). split.
-      * apply atoms_text_plain. rewrite forallb_forall in Hpa. apply (Hpa ea Hea).
+      * rewrite forallb_forall in Hpa. apply (atoms_plain_read [] _ _ (Hpa ea Hea)). apply atoms_text_plain. apply (Hpa ea Hea).
       * apply in_map_iff. exists ea. split; [reflexivity|exact Hea].
   - assert (Hkids : forallb plain_tree ekids = true -> forall k, In k ekids -> reads k (pump_e k)).
     { intros Hall k Hin. rewrite forallb_forall in Hall. rewrite Forall_forall in IH. apply (IH k Hin). apply Hall. exact Hin. }
@@ -145,7 +145,9 @@ Section Plain.
       destruct (wf_class_avar m var Hwc Hvar) as [Hwa Hina].
       pose proof (Hfa _ Hina) as Hfv. cbn [snd] in Hfv.
       destruct (attr_cases c u ok ign var _ Hwa Hfv) as [[E _]|[t [E [_ [Hs _]]]]]; rewrite E in Hea; [destruct Hea|].
-      destruct Hea as [<-|[]]. cbn [snd]. apply (e_atoms_vshape_plain c u ok t _ _ Hs).
+      destruct Hea as [<-|[]]. cbn [snd].
+      destruct Hs as [Hs|[_ [q1 [Eq _]]]]; [apply (e_atoms_vshape_plain c u ok t _ _ Hs)|].
+      pose proof (noq_field cl fs var Hnq) as Hnv. rewrite Eq in Hnv. discriminate Hnv.
     - (* attribute names are distinct *)
       apply NoDup_nodup_by. rewrite <- (map_map fst clark_of).
       assert (Hk : NoDup (map (fun b : XmlNs.qname * list atom => clark_of (fst b))
@@ -171,7 +173,8 @@ Section Plain.
         { rewrite Hpairs. unfold emit1. destruct (field_of fs tv); cbn [flat_map fst snd]; rewrite ?app_nil_r; reflexivity. }
         rewrite Hkf.
         destruct (wf_text_inv tv Hwt) as [Hkt _].
-        destruct (text_field_shape c u ok fs tv Hwt Hft) as [[Ex _]|[t [Ht [Hs _]]]].
+        destruct (text_field_shape c u ok fs tv Hwt Hft) as [[Ex _]|[[t [Ht [Hs _]]]|[q1 [_ [_ [Eq _]]]]]].
+        3:{ pose proof (noq_field cl fs tv Hnq) as Hnv. rewrite Eq in Hnv. discriminate Hnv. }
         * unfold RoundtripGen.e_field. rewrite Ex. reflexivity.
         * assert (He : RoundtripGen.e_field c u (eobj n) tv (field_of fs tv) = e_data (v_format tv) (field_of fs tv)).
           { unfold RoundtripGen.e_field, RoundtripGen.e_items, RoundtripGen.e_wrap.
